@@ -23,6 +23,37 @@ def _argset(v, sense):
     return [i for i, x in enumerate(r) if x == best or x < 0]
 
 
+def _rss_endpoint(x, y):
+    if x[0] == x[-1]:
+        return float(np.sum((y - 0.0) ** 2))
+    m = (y[0] - y[-1]) / (x[0] - x[-1])
+    b = y[0] - m * x[0]
+    return float(np.sum((y - (m * x + b)) ** 2))
+
+
+def _rss_bestfit(x, y):
+    xm, ym = x.mean(), y.mean()
+    sxx = float(np.sum((x - xm) ** 2))
+    if sxx == 0:
+        return float(np.sum((y - ym) ** 2))
+    m = float(np.sum((x - xm) * (y - ym))) / sxx
+    b = ym - m * xm
+    return float(np.sum((y - (m * x + b)) ** 2))
+
+
+def _lerr(x, y, i, fit, cost):
+    """the L-method criterion, computed independently of lmethod.compute_error: residual sums of squares of the two
+    lines (through the end points of each part, or least squares) weighted by the parts' share of the x range;
+    'rmse' form: w*sqrt(w*RSS) per part (the form the library documents), 'rss' form: w*RSS."""
+    length = x[-1] - x[0]
+    wl, wr = (x[i] - x[0]) / length, (x[-1] - x[i]) / length
+    f = _rss_endpoint if fit == "pointfit" else _rss_bestfit
+    rl, rr = max(f(x[:i + 1], y[:i + 1]), 0.0), max(f(x[i:], y[i:]), 0.0)
+    if cost == "rmse":
+        return wl * math.sqrt(rl * wl) + wr * math.sqrt(wr * rr)
+    return rl * wl + rr * wr
+
+
 def _record(item):
     import kneeliverse.curvature as cu
     import kneeliverse.dfdt as df
@@ -86,7 +117,10 @@ def _record(item):
         fit, cost = lm.Fit(what[1]), lm.Cost(what[2])
         c = base("argopt", monitor.call(lm.get_knee, (x, y, fit, cost), budget=B, wall=W), lo_ok=2, hi_ok=n - 3)
         length = x[-1] - x[0]
-        E = [float(lm.compute_error(x, y, i, length, fit, cost)[0]) for i in range(2, n - 2)]
+        E = [_lerr(x, y, i, what[1], what[2]) for i in range(2, n - 2)]
+        lib = [float(lm.compute_error(x, y, i, length, fit, cost)[0]) for i in range(2, n - 2)]
+        if not all(numeric.close(a, b, rel=1e-6, ab=1e-9 * (1.0 + max(abs(v) for v in E))) for a, b in zip(E, lib)):
+            meta["drift"] = "lmethod.compute_error differs from the independent criterion: %s vs %s" % (lib[:4], E[:4])
         c.update(det="lmethod.get_knee(%s,%s)" % (what[1], what[2]), sense="min", lo=2, hi=n - 3,
                  rank=[-1, -1] + _ranks(E) + [-1, -1])
     else:  # ("lknee", fit, mode, limit)
@@ -99,7 +133,7 @@ def _record(item):
                 A.append([])
                 continue
             length = xp[-1] - xp[0]
-            E = [float(lm.compute_error(xp, yp, i, length, fit, lm.Cost.rmse)[0]) for i in range(2, len(xp) - 2)]
+            E = [_lerr(xp, yp, i, what[1], "rmse") for i in range(2, len(xp) - 2)]
             A.append([2 + i for i in _argset(E, "min")])
         c.update(A=A, mode=what[2], limit=limit)
     return c, meta
@@ -158,7 +192,8 @@ def run(ctx):
     ctx.assumptions += numeric.ASSUMPTIONS + [
         "criteria are recomputed by the harness from the stated formulas: uts.gradient.cfd/csd and |f''|/(1+f'^2)^1.5; "
         "|gradient - uts.thresholding.isodata(gradient)| per reachable cutoff; 2|cross|/(product of side lengths); "
-        "lmethod.compute_error on every reachable prefix (the error formula itself is the library's)",
+        "the two-line error w*sqrt(w*RSS) / w*RSS per part (end-point or least-squares lines) recomputed independently of "
+        "lmethod.compute_error on every reachable prefix; a disagreement with compute_error is a DRIFT note",
         "first-versus-last optimiser on ties is not pinned by the property: any member of the noise-merged optimiser set is accepted",
         "L-method: limit >= 4 so that every refined prefix has the 5 points the method needs (limit < 4 is outside the "
         "property's domain n >= 5); prefixes shorter than 5 points pin nothing"]
@@ -175,6 +210,9 @@ def run(ctx):
             vals = set(v for v in c["rank"][c["lo"]:c["hi"] + 1] if v >= 0)
             nt = len(vals) >= 2
         ctx.count((meta[c["id"]]["points"], str(meta[c["id"]]["what"])), nt)
+    for c in cases:
+        if "drift" in meta[c["id"]]:
+            ctx.note("DRIFT: " + meta[c["id"]]["drift"][:300])
     for cid, vs in rej.items():
         m = meta[cid]
         w = m["what"]
